@@ -119,7 +119,7 @@ impl Props {
             for matching_key in map
                 .keys()
                 .filter_map(Value::as_str)
-                .filter(|k| k.starts_with(&key) && k.len() > key.len())
+                .filter(|k| k.starts_with(&key) && k[key.len()..].starts_with('.'))
             {
                 let Some(entry) = map.get(matching_key) else {
                     continue;
